@@ -53,7 +53,7 @@ class Contract:
 
     @property
     def short(self):
-        return self.name.split(".")[-1]
+        return self.name.split("#")[0].split(".")[-1]
 
 
 class SpecFn:
